@@ -72,6 +72,16 @@ class Cls:
         self.module, self.relpath, self.node = module, relpath, node
         self.name = node.name
         self.methods = {m.name: m for m in node.body if isinstance(m, (ast.FunctionDef,))}
+        # names bound in the class body by anything else than a plain `def` (alias, async def, nested class ...)
+        self.other = set()
+        for m in node.body:
+            if isinstance(m, (ast.AsyncFunctionDef, ast.ClassDef)):
+                self.other.add(m.name)
+            elif isinstance(m, (ast.Assign, ast.AnnAssign)):
+                for t in (m.targets if isinstance(m, ast.Assign) else [m.target]):
+                    for n in ast.walk(t):
+                        if isinstance(n, ast.Name):
+                            self.other.add(n.id)
         self.bases = []      # resolved Cls or None
         self.mro = None
 
@@ -235,8 +245,15 @@ class Ctx:
         if after is not None:
             seq = seq[seq.index(after) + 1:]
         for c in seq:
+            if name in c.other:
+                raise TranslationError("%s.%s is bound by something else than a plain def" % (c.name, name))
             if name in c.methods:
-                return c, c.methods[name]
+                fn = c.methods[name]
+                if name in ("open", "close"):
+                    for d in fn.decorator_list:
+                        if not (isinstance(d, ast.Name) and d.id == "rpc_method"):
+                            raise TranslationError("%s.%s has decorator %s" % (c.name, name, ast.unparse(d)))
+                return c, fn
         return None, None
 
     # -- which calls does the model interpret? --------------------------------------------------
@@ -782,7 +799,10 @@ def translate(repo):
                 entry["notes"] = ctx.notes
                 out.append(entry)
             except TranslationError as e:
-                skipped.append({"class": c.name, "module": c.module, "config": live, "reason": "translator: %s" % e})
+                for which in ("open", "close"):
+                    entry.pop(which, None)
+                skipped.append({"class": c.name, "module": c.module, "config": live, "reason": "translator: %s" % e,
+                                "entry": entry})
     return {"classes": out, "not_covered": skipped, "facts": facts}
 
 
